@@ -19,17 +19,17 @@ COMMON_ASSUMPTIONS = [
 
 # history-driven properties: campaign sizes (histories) per tier, ops per history
 HIST = {
-    'C04': dict(quick=700, thorough=9000, nops=10, nops_thorough=14),
-    'C05': dict(quick=700, thorough=9000, nops=10, nops_thorough=14),
-    'C06': dict(quick=700, thorough=9000, nops=9, nops_thorough=14),
-    'C07': dict(quick=700, thorough=9000, nops=9, nops_thorough=14),
-    'C08': dict(quick=700, thorough=9000, nops=10, nops_thorough=16),
-    'C09': dict(quick=700, thorough=9000, nops=12, nops_thorough=16),
-    'C10': dict(quick=900, thorough=12000, nops=14, nops_thorough=18, alpha='aabbA  \t\n--\r\x0b\x0c\x1c\x85\u2028\xe9\xdf\ufb01\u0130\u0149\u01c5', start=2),
-    'C11': dict(quick=900, thorough=12000, nops=12, nops_thorough=16, alpha='aabbbA \t\n-', start=1),
-    'C12': dict(quick=700, thorough=9000, nops=9, nops_thorough=12, start=1),
-    'C16': dict(quick=700, thorough=9000, nops=8, nops_thorough=12, alpha='abAB -\u0130\u017f\u03c3\u03c2\u212a'),
-    'C17': dict(quick=700, thorough=9000, nops=10, nops_thorough=14),
+    'C04': dict(quick=2000, thorough=16000, nops=10, nops_thorough=14),
+    'C05': dict(quick=2000, thorough=16000, nops=10, nops_thorough=14),
+    'C06': dict(quick=2000, thorough=16000, nops=9, nops_thorough=14),
+    'C07': dict(quick=2000, thorough=16000, nops=9, nops_thorough=14),
+    'C08': dict(quick=2000, thorough=16000, nops=10, nops_thorough=16),
+    'C09': dict(quick=2000, thorough=16000, nops=12, nops_thorough=16),
+    'C10': dict(quick=2500, thorough=20000, nops=14, nops_thorough=18, alpha='aabbA  \t\n--\r\x0b\x0c\x1c\x85\u2028\xe9\xdf\ufb01\u0130\u0149\u01c5', start=2),
+    'C11': dict(quick=2500, thorough=20000, nops=12, nops_thorough=16, alpha='aabbbA \t\n-', start=1),
+    'C12': dict(quick=2000, thorough=16000, nops=9, nops_thorough=12, start=1),
+    'C16': dict(quick=2000, thorough=16000, nops=8, nops_thorough=12, alpha='abAB -\u0130\u017f\u03c3\u03c2\u212a'),
+    'C17': dict(quick=2000, thorough=16000, nops=10, nops_thorough=14),
 }
 
 
@@ -227,7 +227,7 @@ def check_c01(prop, tier, seed):
     t0 = time.time()
     design = design_runs(prop, tier)
     thorough = tier == 'thorough'
-    camp = campaign.run_campaign('history', 2500 if thorough else 250, seed, profile='C01',
+    camp = campaign.run_campaign('history', 6000 if thorough else 700, seed, profile='C01',
                                  nops=12 if thorough else 8, maxlen=10 if thorough else 6, more=0.6,
                                  epilogue=('render8',))
     if thorough:
@@ -269,7 +269,7 @@ def merge(*camps):
 def check_c02(prop, tier, seed):
     t0 = time.time()
     design = design_runs(prop, tier)
-    camp = campaign.run_campaign('parse_input', 40000 if tier == 'thorough' else 3000, seed, per_shard_max=4000)
+    camp = campaign.run_campaign('parse_input', 60000 if tier == 'thorough' else 8000, seed, per_shard_max=4000)
     return report(prop, tier, seed, t0, camp, design,
                   extra_cov={'rule': 'random interleavings of text with SGR sequences (multi-parameter colours at any '
                                      'position, several sequences at one position, at start/end), non-SGR and unterminated '
@@ -280,7 +280,7 @@ def check_c03(prop, tier, seed):
     t0 = time.time()
     design = design_runs(prop, tier)
     thorough = tier == 'thorough'
-    camp = campaign.run_campaign('history', 6000 if thorough else 500, seed, profile='C03',
+    camp = campaign.run_campaign('history', 12000 if thorough else 1500, seed, profile='C03',
                                  nops=12 if thorough else 8, maxlen=10 if thorough else 6, more=0.6, odd=0.12,
                                  epilogue=('reparse', 'simplify'))
     from .drivers import history
@@ -311,7 +311,7 @@ def check_c18(prop, tier, seed):
     design = design_runs(prop, tier)
     maxlen = 5 if tier == 'thorough' else 4
     camp, total = enum_campaign('pgs', funcs.CODE_ALPHA, maxlen, 40, seed)
-    s2d = campaign.run_campaign('s2d', 600 if tier == 'thorough' else 60, seed, block=50)
+    s2d = campaign.run_campaign('s2d', 1200 if tier == 'thorough' else 150, seed, block=50)
     allc = campaign.run_campaign('pgs_codes', 1, seed)
     return report(prop, tier, seed, t0, merge(camp, s2d, allc), design,
                   extra_cov={'rule': 'all code lists over %s up to length %d, each as ;-string, list of int and list of str, '
@@ -341,7 +341,7 @@ def check_c15(prop, tier, seed):
     maxlen = 6 if thorough else 4
     camp, total = enum_campaign('aset', funcs.SET_ALPHA, maxlen, 2000 if thorough else 200, seed)
     extra = campaign.run_campaign('aset_extra', 1, seed)
-    hist = campaign.run_campaign('history', 3000 if thorough else 400, seed, profile='C15', nops=10, maxlen=6, more=0.4,
+    hist = campaign.run_campaign('history', 8000 if thorough else 1200, seed, profile='C15', nops=10, maxlen=6, more=0.4,
                                  odd=0.35, epilogue=('render8',))
     return report(prop, tier, seed, t0, merge(camp, extra, hist), design,
                   extra_cov={'rule': 'all setting texts over {0 1 2 3 5 8 ; space ? : m} up to length %d plus boundary texts and all '
@@ -390,7 +390,7 @@ def check_c14(prop, tier, seed):
     c2 = campaign.run_campaign('sp_codes', 1, seed)
     c3 = campaign.run_campaign('sp_colours', 1, seed)
     c4 = campaign.run_campaign('sp_mix', 120 if thorough else 14, seed, names=names, block=100)
-    c5 = campaign.run_campaign('sp_hist', 6000 if thorough else 500, seed, nops=8 if thorough else 6)
+    c5 = campaign.run_campaign('sp_hist', 12000 if thorough else 1500, seed, nops=8 if thorough else 6)
     return report(prop, tier, seed, t0, merge(c1, c2, c3, c4, c5), design,
                   extra_cov={'rule': '%d AnsiFormat names x 10 spellings (member, 3 letter cases x 3 separators); every code 0..255 as '
                                      'int/str/verbatim; integer runs with the colour group at any position in 4 encodings; rgb()/color256() '
@@ -405,7 +405,7 @@ def check_c13(prop, tier, seed):
     t0 = time.time()
     design = design_runs(prop, tier)
     thorough = tier == 'thorough'
-    camp = campaign.run_campaign('twins', 8000 if thorough else 600, seed, nops=10 if thorough else 6, maxlen=8 if thorough else 6)
+    camp = campaign.run_campaign('twins', 16000 if thorough else 2000, seed, nops=10 if thorough else 6, maxlen=8 if thorough else 6)
     return report(prop, tier, seed, t0, camp, design,
                   extra_cov={'rule': 'constructor forms (str with/without escape sequences, AnsiString, AnsiStr source; with/without '
                                      'settings) and shared methods executed in lockstep on an AnsiString and its AnsiStr twin; TLC '
